@@ -30,6 +30,7 @@ type c17Case struct {
 	Answer   string     `json:"answer"`
 	Proceed  []string   `json:"proceed"`
 	After    [][]string `json:"after"`
+	After2   [][]string `json:"after2"`
 }
 
 type c17Bad struct {
@@ -150,9 +151,24 @@ func c17RunCase(c c17Case, idx int, w *c17World, dir string) *c17Bad {
 		for k := 0; k < 1+pick%3; k++ {
 			pre += non[(pick/3+k*5)%len(non)]
 		}
-		wr.WriteString(pre + answer)
-		wr.Close()
-		c17Silence(func() { kc.promptAddHosts(pending) })
+		if len(pending) == 2 && idx%2 == 1 && c.After2 != nil {
+			// two batches in one session: the second host is put before the user after the first has been dealt with
+			// (the prompt reads its terminal through a buffer of its own: one pipe per question)
+			wr.WriteString(pre + answer)
+			wr.Close()
+			c17Silence(func() { kc.promptAddHosts(pending[:1]) })
+			r2, wr2, _ := os.Pipe()
+			os.Stdin = r2
+			wr2.WriteString(answer)
+			wr2.Close()
+			c17Silence(func() { kc.promptAddHosts(pending[1:]) })
+			r2.Close()
+			c.After = c.After2
+		} else {
+			wr.WriteString(pre + answer)
+			wr.Close()
+			c17Silence(func() { kc.promptAddHosts(pending) })
+		}
 		os.Stdin = oldStdin
 		r.Close()
 	}
